@@ -19,6 +19,7 @@ from mc.engine import ok, bad, unspecified
 from mc.common import call, Raised, DimArray, Axis, py, same_scalar, same_list
 
 ID = "C10"
+VARIANT_SWEEP = True      # thorough tier: every case on every history variant of its array (see mc/domains.py VSHIFT)
 TITLE = "rearranging dimensions preserves coordinates"
 RULE = ("product of (arrays 0-4D, axes of pairwise different kind and length, variants with singleton dimensions) x "
         "(every permutation by name/position/list/varargs, T, every ordered axis pair for swapaxes, every (axis,start) for rollaxis, "
